@@ -319,7 +319,9 @@ class StarSet(object):
         :param threshold: threshold for determining equality with symmetry
         :param originstates: include origin states in generate?
         """
-        if Nshells == getattr(self, 'Nshells', -1): return
+        # nothing to do only if the range AND the presence of origin states are what is being asked for
+        if Nshells == getattr(self, 'Nshells', -1) and \
+                originstates == any(PS.iszero() for PS in getattr(self, 'states', [])): return
         self.Nshells = Nshells
         if Nshells > 0:
             stateset = set(self.jumplist)
